@@ -77,6 +77,9 @@ mod shared;
 mod state;
 pub mod subscriber;
 mod unique;
+#[cfg(feature = "__verif_hooks")]
+#[doc(hidden)]
+pub mod verif;
 
 #[cfg(feature = "async-lock")]
 #[doc(inline)]
